@@ -19,6 +19,30 @@ CHECKS = {
             'Trusts vlib/ref.py (self-validated against brute-force path enumeration on every small case), '
             'Hypothesis, CPython float arithmetic; lengths <= 14, |values| <= 1e3.',
             'DESIGN.md §3 C01'),
+    'C02': ('differential property-based testing (Hypothesis): every C entry point vs the Python engine, '
+            'independent reference as arbiter',
+            'Generated-input search over (series, settings, ndim, off-encoding) tuples; each case is evaluated by the '
+            'Python engine and by every applicable C entry point (public wrappers, Cython module functions, '
+            'distance-matrix entries, exported kernels via ctypes) and the values must agree (both infinite or 1e-9 '
+            'relative). Exploration only: agreement is shown on the explored inputs.',
+            'Trusts Hypothesis, ctypes struct layout of DTWSettings (checked against dd_dtw.h), numpy; lengths <= 14, '
+            '|values| <= 1e3; max_length_diff=0 and only_ub combined with max_length_diff are outside the domain '
+            '(not expressible / not fixed by a property).',
+            'DESIGN.md §3 C02'),
+    'C17': ('property-based testing (Hypothesis) + exhaustive enumeration of a small sub-space against an independent '
+            'alignment DP and brute-force alignment enumeration',
+            'Generated sequences/scoring schemes/traceback orders plus the complete sub-space {A,B}^(<=4) x {A,B}^(<=4) x '
+            '6 orders; value compared with an independent DP (itself validated by enumerating all alignments), '
+            'alignment validated column by column and re-scored.',
+            'Trusts vlib/props/c17.py reference DP (self-checked against brute force for |s1|+|s2|<=8); dyadic scores.',
+            'DESIGN.md §3 C17'),
+    'C19': ('property-based testing (Hypothesis) against closed-form formulas, monotonicity/range predicates and a '
+            'round trip through return_params',
+            'Generated arrays (shapes, zeros, duplicates, single elements) x methods x explicit/derived parameters x '
+            'cover_quantile forms x keep_sign; element-wise comparison with the documented formula evaluated with '
+            'math, monotonicity over all pairs, range [0,1], zero -> maximum, round trip.',
+            'Trusts the math module and an own quantile implementation; values 0 or in [1e-3,1e6]; positive scales.',
+            'DESIGN.md §3 C19'),
 }
 NOT_YET = {}
 
